@@ -751,6 +751,7 @@ func runC13(c *Ctx) {
 			". 302 Open 2f", ". - HReaddirnames 302 3", ". - HReaddirnames 302 3")
 		c13Case(c, "d6", "re:0(mem)", items)
 	}
+	mixedStackCases(c, []string{"re:0(cow(mem,mem))", "re:2(ro(mem))", "re:1(bp:2f64(cow(mem,mem)))"}, map[bool]int{false: 90, true: 3000}[c.Tier == "thorough"], "ux")
 	runC13PartialListing(c)
 	for i := 0; i < n; i++ {
 		st := fmt.Sprintf("re:%d(mem)", i%3)
